@@ -191,7 +191,7 @@ pub async fn scenario(w: World, h: Hist, trace: bool) -> Outcome {
         settle_net(&w).await;
     }
     // ---- what did readers get
-    let mut check = |who: &str, ids: &[(u32, u32)], out: &mut Outcome| -> bool {
+    let check = |who: &str, ids: &[(u32, u32)], out: &mut Outcome| -> bool {
         for (key, seq) in ids {
             if failed.contains(seq) {
                 let kind = refused.get(seq).copied().unwrap_or("none");
